@@ -131,10 +131,13 @@ def cases(tier):
             depth = 2 if tier == "quick" else 3
             for first in SEQ_SET:
                 out.append(("seq", backend, cfgname, (first, depth), tier))
+    out += SCHEDMODE.cases(tier)
     return out
 
 
 def describe(case):
+    if case[0] == "sched":
+        return SCHEDMODE.describe(case)
     return {"mode": case[0], "backend": case[1], "config": case[2], "arg": list(case[3]) if isinstance(case[3], tuple) else case[3], "tier": case[4]}
 
 
@@ -341,7 +344,93 @@ def run_seq(case):
     return viol, n
 
 
+# ---------------------------------------------------------------------------------------------------
+# Two connections authenticate at the same time (SCHED): each ends up with the identity it proved, never with the other's.
+from ..schedmode import SchedMode  # noqa: E402
+from ..env import TOKENS  # noqa: E402
+
+_CH = {}
+
+
+def _s_setup(w):
+    TOKENS.reset()
+    w.call(w.storage.set_auth_roles(PK["K1"], "w"), 1e6)
+    w.call(w.storage.set_auth_roles(PK["K2"], "r"), 1e6)
+    w.run(1e6)
+    TOKENS.reset()
+
+
+def _challenges(backend):
+    """the token source is deterministic: learn the challenges the two connections will get"""
+    if backend not in _CH:
+        w = World(backend, config={"authentication": configs()["urls_list"]}, storage_options={"stats_interval": 1e15}, message_timeout=1e300)
+        try:
+            _s_setup(w)
+            out = []
+            for cn, addr in (("c1", "1.1.1.1"), ("c2", "2.2.2.2")):
+                c = w.connect(cn, addr)
+                w.run(1e6)
+                out.append(frames(c)[0][1])
+            _CH[backend] = out
+        finally:
+            w.close()
+    return _CH[backend]
+
+
+S_EV1 = make_event("K1", 1, NOW - 5, [], "by K1")
+S_EV2 = make_event("K2", 1, NOW - 4, [], "by K2")
+S_NAMES = {"own_challenges": None, "swapped_challenges": None, "auth_vs_probe_of_the_other": None}
+
+
+def _s_script(name, backend):
+    ch1, ch2 = _challenges(backend)
+    url = url_of("urls_list")
+    if name == "swapped_challenges":
+        ch1, ch2 = ch2, ch1
+    a1 = ("c1", ["AUTH", auth("K1", ch1, url)])
+    a2 = ("c2", ["AUTH", auth("K2", ch2, url)])
+    probes = [("c1", ["EVENT", S_EV1]), ("c1", ["REQ", "p1", {"kinds": [1]}]), ("c2", ["EVENT", S_EV2]), ("c2", ["REQ", "p2", {"kinds": [1]}])]
+    if name == "auth_vs_probe_of_the_other":
+        return [a1, ("c2", ["EVENT", S_EV2]), ("c2", ["REQ", "p2", {"kinds": [1]}]), a2, ("c1", ["EVENT", S_EV1]), ("c1", ["REQ", "p1", {"kinds": [1]}]),
+                ("c2", ["REQ", "p3", {"kinds": [1]}])]
+    return [a1, a2] + probes
+
+
+def _s_build(name, backend, policy):
+    from ..explorer import Scenario
+
+    return Scenario("%s%s|%s" % (name, "@fair" if policy == "fair" else "", backend), backend, [("c1", "1.1.1.1"), ("c2", "2.2.2.2")], _s_script(name, backend),
+                    config={"authentication": configs()["urls_list"]}, storage_options={"stats_interval": 1e15}, setup=_s_setup, horizon=60.0, policy=policy)
+
+
+S_EXPECT = {
+    # (connection, probe) -> granted?   K1 holds role w (may save), K2 holds role r (may query)
+    "own_challenges": {("c1", "EVENT"): True, ("c1", "p1"): False, ("c2", "EVENT"): False, ("c2", "p2"): True},
+    "swapped_challenges": {("c1", "EVENT"): False, ("c1", "p1"): False, ("c2", "EVENT"): False, ("c2", "p2"): False},
+    "auth_vs_probe_of_the_other": {("c1", "EVENT"): True, ("c1", "p1"): False, ("c2", "EVENT"): False, ("c2", "p2"): False, ("c2", "p3"): True},
+}
+
+
+def _s_judge(x, name, backend, viol, cid, sig):
+    w = x.world
+    for (cn, probe), want in S_EXPECT[name].items():
+        fr = frames(w.conns[cn])
+        if probe == "EVENT":
+            got = any(m[0] == "OK" and m[2] is True for m in fr)
+        else:
+            got = any(m[0] == "EOSE" and m[1] == probe for m in fr)
+        if got != want:
+            viol.append({"case": cid, "clause": "identity-only-by-valid-answer" if got else "valid-answer-authenticates", "sig": sig + "|%s|%s" % (cn, probe),
+                         "detail": "%s: probe %s was %s, expected %s (K1 may save, K2 may query; each connection answers %s challenge)" % (
+                             cn, probe, "granted" if got else "refused", "granted" if want else "refused", "the other's" if name == "swapped_challenges" else "its own")})
+
+
+SCHEDMODE = SchedMode(S_NAMES, _s_build, _s_judge)
+
+
 def run_case(case):
+    if SCHEDMODE.is_case(case) and case[0] == "sched":
+        return SCHEDMODE.run(case)
     if case[0] == "variants":
         viol, n = run_variants(case)
     else:
@@ -356,19 +445,26 @@ def run_case(case):
 
 def coverage(tier, agg):
     return {
-        "rule": "variants: %d AUTH payloads derived from a valid one (kind, signature, signer, content, challenge of another / an earlier connection / "
+        "rule": ("variants: %d AUTH payloads derived from a valid one (kind, signature, signer, content, challenge of another / an earlier connection / "
                 "empty / missing / prefix / upper-case / duplicated, extra tags, relay tag missing / other host / substring / single character / empty / "
                 "superstring / other scheme / duplicated, created_at at -601,-600,-599,0,+599,+600,+601 s, short tags, non-object payloads, forged id; every tag list of length <= 3 over {good relay, foreign relay, own challenge, "
                 "another connection's challenge, unrelated tag}) "
                 "on a fresh connection with pre-identity none and K2, relay_urls as list and as the string default; valid answers are replayed on a "
                 "second connection; seq: all sequences of <= %d attempts over %r alternating between two connections; identity observed after every "
-                "attempt through save (role w = K1) and query (role r = K2) probes; challenges must be distinct fresh draws of the secrets source." % (
+                "attempt through save (role w = K1) and query (role r = K2) probes; challenges must be distinct fresh draws of the secrets source." + SCHEDMODE.rule() +
+                ": two connections authenticate at once (each with its own challenge / each with the other's / one probing while the other authenticates) and end up "
+                "with exactly the identity they proved") % (
                     len(variants("urls_list", "x" * 32, "y" * 32, "z" * 32)), 2 if tier == "quick" else 3, SEQ_SET),
         "backends": ["sql", "kv"],
     }
 
 
 def replay(desc):
+    if desc.get("mode") == "sched":
+        r = run_case(SCHEDMODE.from_desc(desc))
+        for v in r["viol"][:30]:
+            print(v["clause"], v["detail"][:500])
+        return r["viol"]
     arg = desc["arg"]
     r = run_case((desc["mode"], desc["backend"], desc["config"], tuple(arg) if isinstance(arg, list) else arg, desc.get("tier", "quick")))
     for v in r["viol"][:30]:
